@@ -10,6 +10,7 @@ enumerates each domain, checks ranges and nestings on the definitions and export
 row is replayed into the public functions (1e-9).  Threshold ties that the property exempts are
 flagged by the spec and skipped."""
 import json
+import sys
 import math
 import random
 
@@ -38,6 +39,39 @@ def notes_arrays(notes):
 def close(got, want, tol=1e-9):
     got = [float(x) for x in (got if isinstance(got, (tuple, list, np.ndarray)) else [got])]
     return len(got) == len(want) and all(abs(g - w) <= tol for g, w in zip(got, want)), got
+
+
+class HoldTracer:
+    """Observes the local array `frequencies_held` of melody.resample_melody_series at its return (sys.monitoring PY_RETURN
+    on that code object only) - the intermediate "hold" state of the specification - without touching the code.  If a
+    refactoring renames the local, `available` stays False and nothing is claimed."""
+    TOOL = 3
+
+    def __init__(self, me):
+        self.code = me.melody.resample_melody_series.__code__
+        self.available = "frequencies_held" in self.code.co_varnames
+        self.held = []
+
+    def _ret(self, code, off, val):
+        if code is self.code:
+            h = sys._getframe(1).f_locals.get("frequencies_held")
+            if h is not None:
+                self.held.append([float(x) for x in np.asarray(h).ravel()])
+
+    def __enter__(self):
+        mon = sys.monitoring
+        if mon.get_tool(self.TOOL) is not None:
+            mon.free_tool_id(self.TOOL)
+        mon.use_tool_id(self.TOOL, "mir_eval_verif_hold")
+        mon.register_callback(self.TOOL, mon.events.PY_RETURN, self._ret)
+        mon.set_local_events(self.TOOL, self.code, mon.events.PY_RETURN)
+        return self
+
+    def __exit__(self, *a):
+        mon = sys.monitoring
+        mon.set_local_events(self.TOOL, self.code, 0)
+        mon.free_tool_id(self.TOOL)
+        return False
 
 
 def run(tier, seed):
@@ -255,9 +289,16 @@ def run(tier, seed):
         d = {"ref_time": rt.tolist(), "ref_freq": rf.tolist(), "ref_reward": rw.tolist(), "est_time": et.tolist(), "est_freq": ef.tolist(),
              "est_voicing": ew.tolist(), "kw": kw}
         want_cv = [fr(x) for key in ("rv", "rc", "ev", "ec") for x in o["cv"][key]]
-        check("melody.to_cent_voicing",
-              lambda: np.concatenate([np.asarray(a, dtype=float) for a in me.melody.to_cent_voicing(rt, rf, et, ef, est_voicing=ew, ref_reward=rw, **kw)]),
-              want_cv, d, cls="to_cent_voicing-differs")
+        with HoldTracer(me) as ht:
+            check("melody.to_cent_voicing",
+                  lambda: np.concatenate([np.asarray(a, dtype=float) for a in me.melody.to_cent_voicing(rt, rf, et, ef, est_voicing=ew, ref_reward=rw, **kw)]),
+                  want_cv, d, cls="to_cent_voicing-differs")
+        # the traced internal state of every resampling that took place: the held pitch series (MelodyPre!HeldOf)
+        if ht.available:
+            want_held = [[float(x) for x in hs] for hs in o["cv"]["held"]]
+            total += 1
+            if len(ht.held) != len(want_held) or any(len(a) != len(b) or any(abs(x - y) > 1e-6 for x, y in zip(a, b)) for a, b in zip(ht.held, want_held)):
+                rep.violation("melody.resample_melody_series", "held-pitch-state-differs", dict(d, traced=ht.held, expected=want_held))
         check("melody.evaluate", lambda: list(me.melody.evaluate(rt, rf, et, ef, est_voicing=ew, ref_reward=rw, **kw).values()),
               [fr(o["recall"]), fr(o["fa"]), fr(o["rpa"]), fr(o["rca"]), fr(o["oa"])], d)
         ev.case(("melk", r["ref"], r["est"], r["hop"], r["kind"]), nontrivial=r["ref"]["t"] != r["est"]["t"] or bool(r["hop"]))
